@@ -140,8 +140,32 @@ def rule_d(repo, chk):
     chk.ob('C18.d', ok, f, 'the leaf is looked up with include_prefixes=True (never None)')
 
 
+def rule_e(repo, chk):
+    chk.clause('C18.e', 'the context of a `self.x` name is the innermost scope around it: every return of create_instance_context descends from '
+                        'the bound method\'s context to the name with create_context(node) (nested functions/lambdas/comprehensions inside a '
+                        'method are not collapsed into the method); SelfName.parent_context is that context')
+    f = None
+    for q in ('TreeInstance.create_instance_context', '_BaseTreeInstance.create_instance_context', 'AbstractInstanceValue.create_instance_context'):
+        try:
+            f = repo.find('jedi.inference.value.instance', q)
+            break
+        except AnchorError:
+            continue
+    if f is None:
+        raise AnchorError('create_instance_context not found')
+    node_param = params(f)[-1]
+    rets = stmts_in(f, ast.Return)
+    chk.floor('C18.e', len(rets), 1, '(returns of create_instance_context)')
+    for r in rets:
+        ok = isinstance(r.value, ast.Call) and call_name(r.value) == 'create_context' and len(r.value.args) == 1 and norm(r.value.args[0]) == node_param
+        chk.ob('C18.e', ok, r, 'create_instance_context returns <method context>.create_context(%s)' % node_param, 'returns %s' % short(r.value))
+    sn = repo.find('jedi.inference.value.instance', 'SelfName.parent_context')
+    ok = any(call_name(c) == 'create_instance_context' and len(c.args) == 2 and norm(c.args[1]) == 'self.tree_name' for c in calls_in(sn))
+    chk.ob('C18.e', ok, sn, 'SelfName.parent_context asks for the context of its own tree name')
+
+
 def describe(chk):
     chk.undecided('the position -> scope mapping over all files (e.g. async def bodies); __qualname__ equality for everything the engine reports')
 
 
-RULES = [('C18.a', rule_a), ('C18.b', rule_b), ('C18.c', rule_c), ('C18.d', rule_d)]
+RULES = [('C18.a', rule_a), ('C18.b', rule_b), ('C18.c', rule_c), ('C18.d', rule_d), ('C18.e', rule_e)]
